@@ -30,7 +30,7 @@ type idxRec struct {
 
 // IdxMut is one store mutation.
 type IdxMut struct {
-	Kind string `json:"k"` // create | update | delete
+	Kind string `json:"k"` // create | update | delete | init (index scenario: Store.Init with the case's seeds)
 	ID   string `json:"id"`
 	K    string `json:"key,omitempty"`
 	N    string `json:"n,omitempty"`
@@ -70,6 +70,10 @@ type IdxCase struct {
 	SubQ     []IdxQuery `json:"subq"`              // queries evaluated inside query-change callbacks (C14)
 	TQCap    int        `json:"tq_cap,omitempty"`  // capacity of the index task queue (0 = the library's 256)
 	Flushes  int        `json:"flushes,omitempty"` // Flush calls of a background task
+	// Seeds: what an "init" mutation hands to Store.Init; only the first
+	// Init that goes through writes them, and only under ids that hold
+	// nothing yet
+	Seeds []IdxMut `json:"seeds,omitempty"`
 }
 
 // IndexScenario: index queries equal the reference scan once Flush returned
@@ -104,11 +108,14 @@ func (IndexScenario) GenCase(r *rand.Rand, prop string) interface{} {
 		for i, n := 0, 2+r.IntN(6); i < n; i++ {
 			v++
 			m := IdxMut{Kind: pick(r, "create", "create", "update", "update", "delete"), ID: pick(r, idxIDs...), K: pick(r, idxKeys...), N: pick(r, "x", "y", "xy", "", ""), V: v}
-			if len(muts) > 0 && chance(r, 25) {
+			if len(muts) > 0 && muts[len(muts)-1].Kind != "init" && chance(r, 25) {
 				// several mutations inside one write transaction
 				m.ID, m.Cont = muts[len(muts)-1].ID, true
 			}
 			m.CommitErr = chance(r, 6)
+			if chance(r, 7) {
+				m = IdxMut{Kind: "init", ID: m.ID}
+			}
 			muts = append(muts, m)
 		}
 		c.Mutators = append(c.Mutators, muts)
@@ -125,6 +132,9 @@ func (IndexScenario) GenCase(r *rand.Rand, prop string) interface{} {
 	}
 	c.TQCap = pick(r, 0, 0, 1, 1, 2, 3)
 	c.Flushes = pick(r, 0, 0, 1, 2, 4)
+	for i, n := 0, 1+r.IntN(3); i < n; i++ {
+		c.Seeds = append(c.Seeds, IdxMut{ID: idxIDs[(i*2+r.IntN(2))%len(idxIDs)], K: pick(r, idxKeys...), N: pick(r, "x", "y", ""), V: 500 + i})
+	}
 	return c
 }
 
@@ -379,6 +389,20 @@ func (IndexScenario) Execute(sim *sched.Sim, ci interface{}, prop string, race b
 			ms := c.Mutators[mi]
 			for i := 0; i < len(ms); {
 				sim.Yield("mut.op", strconv.Itoa(i))
+				if ms[i].Kind == "init" {
+					// (an Init refused with a transaction conflict, because
+					// another mutator created a seed id meanwhile, has done
+					// nothing)
+					sim.Probe("index.init")
+					ir.st.Init(func(add func(id string, v interface{})) error {
+						for _, sd := range c.Seeds {
+							add(sd.ID, idxRec{K: sd.K, N: sd.N, V: sd.V})
+						}
+						return nil
+					})
+					i++
+					continue
+				}
 				wt := ir.st.Write(ms[i].ID)
 				for first := true; i < len(ms) && (first || (ms[i].Cont && ms[i].ID == ms[i-1].ID)); i++ {
 					m := ms[i]
